@@ -51,6 +51,18 @@ CHECKS = {
   "bounded-exhaustive enumeration of stores, export end points and snapshot corruptions (every truncation, every block-level edit)",
   "All stores of a grid (first instance, length, delta patterns, checkpoint frequency 3 plus one 1445-certificate store at the production frequency) are exported at every end point and re-imported: the imported store must be observationally identical and the digest must be the blake2b-256 of the bytes; every byte truncation, dropped/duplicated/swapped/surplus block, header or manifest disagreement and altered (also compensated) delta must be rejected without panic.",
   "in-memory datastores; snapshots from the repository's exporter", "DESIGN §3 C17"),
+ "C04": (True, "certsenum", "exploration",
+  "bounded-exhaustive enumeration of corrupted certificate chains and of a complete small power-table universe against independent reference predicates",
+  "Honest certificate chains over evolving tables (three histories) and every single and every pair of ~45 corruption kinds at every position (both re-signed by a quorum and raw), every signer subset with a valid aggregate, and cross-history splices are validated by certs.ValidateFinalityCertificates and by an independent reference predicate: accept iff reference accepts, and on rejection the reported next instance, chain and table describe exactly the valid prefix. All 343x343 ordered table pairs and all near-valid deltas over ids{1,2,3} x power{absent,1,2,2^70} x key{k,k'}: Apply(Make(a,b),a)=b canonically, every accepted delta is the canonical one, inputs never modified.",
+  "fake signing backend; reference predicates written from the statement", "DESIGN §3 C04"),
+ "C05": (True, "valenum", "model_checking",
+  "exhaustive enumeration of the message space (valid shapes and all <=2-field deviations) x progress states, plus explicit-state exploration of all cache histories of length <=2 on the production validator",
+  "One valid message per (step, round, value, justification kind) and every single and pair of field deviations (5.7k messages) are validated at 20 progress states by the production caching validator; verdicts are compared with an independent validity predicate and the statement's relevance rule (sound, complete when relevant, never branded invalid when valid). History independence: for every message, every sequence of <=2 earlier full/partial validations of its twins or a group eviction (cache sizes 64 and 2) must leave the verdict unchanged.",
+  "fake signing backend; fixed committee incl. a zero-scaled-power member; concurrent validation not explored (sequential histories only)", "DESIGN §3 C05"),
+ "C13": (True, "valenum", "model_checking",
+  "exhaustive enumeration of messages x announced keys x completing chains through the two validation paths, plus cache-history exploration shared between them",
+  "For every message of the C05 space, three announced keys (matching, zero, other) and four completing chains (original, other, bottom, malformed), with the production stripper and with the justification left as sent: PartiallyValidate then FullyValidate accepts iff the key equals the chain's key and one-shot validation of the completed message accepts; strip then complete is the identity on valid messages; partial/full verdicts are independent of earlier validations on the same validator.",
+  "as C05; completion uses the production justification-value inference through an injected accessor", "DESIGN §3 C13"),
 }
 
 ALL = ["C%02d" % i for i in range(1, 21)]
